@@ -134,6 +134,15 @@ def gen_cases(tier, seed):
     out.append({'kind': 'readheader', 'bytes': [b, (b * 7) % 256, (b * 13) % 256, 255 - b, 9, 9]})
   for k in range(0, 5):                     # short reads
     out.append({'kind': 'readheader', 'bytes': [1] * k})
+  for i in range(n // 8):
+    r = C.case_rng(seed, PID + 'pipe', i)
+    msgs = []
+    for _ in range(r.choice([2, 3, 5, 8])):
+      msgs.append({'arg': rand_text(r, 6), 'plen': r.choice([0, 0, 1, 30, 300, r.randrange(0, 1200)]),
+                   'props': [[kk, vv] for kk, vv in rand_dict(r, r.choice([0, 1, 3])) if 's' in vv],
+                   'deadline': r.choice([None, None, 1790000000.5 + r.randrange(0, 1000), 0.25])})
+    out.append({'kind': 'pipeline', 'msgs': msgs, 'now': 1790000000 + r.randrange(0, 10 ** 6) + r.choice([0.0, 0.75]),
+                'client_id': r.choice([None, 'cid', rand_text(r, 8) or 'x'])})
   for i in range(n):
     r = C.case_rng(seed, PID, i)
     k = r.random()
@@ -244,9 +253,91 @@ class _CaptureQueue(object):
     self.items.append(x)
 
 
+def _run_pipeline(case):
+  """Messages through the real sink chain ClientIdInterceptorSink -> ThriftMuxMessageSerializerSink -> thriftmux
+  SocketTransportSink.AsyncProcessRequest (send queue captured), one sink instance for the whole sequence."""
+  import time as _time
+  from scales.thriftmux.sink import ClientIdInterceptorSink
+  from scales.constants import SinkProperties, ChannelState
+  from scales.sink import ClientMessageSinkStack
+  from scales.message import Deadline as _D
+
+  class FakeSock(object):
+    host = 'h'
+    port = 1
+
+    def isOpen(self):
+      return True
+
+    def close(self):
+      pass
+  tr = _S['SocketTransportSink'](FakeSock(), 'svc')
+  tr._Init()
+  tr._state = ChannelState.Open
+  q = _CaptureQueue()
+  tr._send_queue = q
+
+  class Prov(object):
+    def __init__(self, sink):
+      self.sink = sink
+
+    def CreateSink(self, props):
+      return self.sink
+  gp = {SinkProperties.ServiceInterface: _S['Hello'].Iface, SinkProperties.Label: 'svc'}
+  ser = _S['Ser'](Prov(tr), None, gp)
+  top = ser
+  if case.get('client_id') is not None:
+    top = ClientIdInterceptorSink(Prov(ser), ClientIdInterceptorSink.Builder(client_id=case['client_id']).sink_properties, gp)
+  real_time = _time.time
+  _time.time = lambda: case['now']
+  out = []
+  try:
+    for m in case['msgs']:
+      msg = _S['MethodCallMessage'](_S['Hello'].Iface, 'hi', (m['arg'] + 'x' * m['plen'],), {})
+      for kk, vv in m['props']:
+        msg.properties[kk] = vv['s']
+      if m['deadline'] is not None:
+        msg.properties[_D.KEY] = m['deadline']
+      before = len(q.items)
+      try:
+        top.AsyncProcessRequest(ClientMessageSinkStack(), msg, None, {})
+      except Exception as e:
+        out.append({'exc': type(e).__name__})
+        continue
+      if len(q.items) == before + 1:
+        out.append({'bytes': list(q.items[-1][0]), 'tag': msg.properties.get('__Tag')})
+      else:
+        out.append({'exc': 'not-queued'})
+  finally:
+    _time.time = real_time
+  return {'frames': out}
+
+
+def _pipeline_parts(case, m):
+  """(props as supplied to the serializer, headers it adds) for one message of a pipeline case."""
+  props = [[kk, dict(vv)] for kk, vv in m['props']]
+  if m['deadline'] is not None:
+    props.append(['__Deadline', {'o': m['deadline']}])
+  if case.get('client_id') is not None:
+    props = [p for p in props if p[0] != 'com.twitter.finagle.thrift.ClientIdContext']
+    # dict semantics: an existing key keeps its position
+    idx = [i for i, p in enumerate([[kk, vv] for kk, vv in m['props']]) if p[0] == 'com.twitter.finagle.thrift.ClientIdContext']
+    ent = ['com.twitter.finagle.thrift.ClientIdContext', {'s': case['client_id']}]
+    if idx:
+      props.insert(idx[0], ent)
+    else:
+      props.append(ent)
+  headers = []
+  if m['deadline']:
+    headers.append(['com.twitter.finagle.Deadline', {'d': [int(case['now']) * 1000000000, int(m['deadline'] * 1000000000)]}])
+  return props, headers
+
+
 def run_impl(case):
   setup()
   k = case['kind']
+  if k == 'pipeline':
+    return _run_pipeline(case)
   try:
     if k == 'header':
       sink = _S['SocketTransportSink'].__new__(_S['SocketTransportSink'])
@@ -391,9 +482,42 @@ def _encodable(case):
   return True
 
 
+def _monitor_pipeline(case, obs):
+  v = []
+  for j, (m, fr) in enumerate(zip(case['msgs'], obs['frames'])):
+    props, headers = _pipeline_parts(case, m)
+    sub = {'props': props, 'headers': headers, 'big': None}
+    enc = _encodable(sub)
+    if 'exc' in fr:
+      if enc:
+        v.append(('dispatch-rejected', 'message #%d of the sequence raised %s' % (j, fr['exc'])))
+      continue
+    b = bytes(fr['bytes'])
+    try:
+      t, tag, body = py_parse_frame(b)
+      ctx, dst, dtab, payload = py_parse_tdispatch(body)
+    except Exception as e:
+      v.append(('frame-undecodable', 'frame #%d of the sequence: %s' % (j, e)))
+      continue
+    if t != 2 or tag != fr['tag']:
+      v.append(('dispatch-header', 'frame #%d: type %d tag %d (assigned tag %s)' % (j, t, tag, fr['tag'])))
+    want = []
+    for kk, vv in _supplied_ctx(sub):
+      want.append((kk.encode('utf-8'), vv['s'].encode('utf-8') if 's' in vv else struct.pack('!qq', *vv['d'])))
+    if ctx != want:
+      v.append(('dispatch-contexts', 'frame #%d: decoded contexts %r differ from supplied %r' % (j, ctx[:3], want[:3])))
+    if dst != b'' or dtab != []:
+      v.append(('dispatch-dst-dtab', 'frame #%d' % j))
+    if payload != _thrift_payload(m['arg'] + 'x' * m['plen']):
+      v.append(('dispatch-payload', 'frame #%d: payload differs from the Thrift library encoding of the call' % j))
+  return v
+
+
 def monitor(case, obs):
   k = case['kind']
   v = []
+  if k == 'pipeline':
+    return _monitor_pipeline(case, obs)
   if k == 'header':
     ok_in = -128 <= case['type'] <= 127 and -2 ** 31 <= case['dlen'] + 4 < 2 ** 31
     if 'exc' in obs:
@@ -511,6 +635,15 @@ def _entries(es):
 
 def to_coq(case, obs):
   k = case['kind']
+  if k == 'pipeline':
+    terms = []
+    for m, fr in zip(case['msgs'], obs['frames']):
+      props, headers = _pipeline_parts(case, m)
+      payload = _thrift_payload(m['arg'] + 'x' * m['plen'])
+      e = C.opt(C.bytes_lit(fr['bytes'])) if 'bytes' in fr else 'None'
+      tag = fr.get('tag') or 0
+      terms.append('CDispatch %s %s %s %s %s' % (C.zlit(tag), _entries(props), _entries(headers), C.bytes_lit(payload), e))
+    return terms
   exp_bytes = C.opt(C.bytes_lit(obs['bytes'])) if 'bytes' in obs else 'None'
   if k == 'header':
     return 'CHeader %s %s %s %s' % (C.zlit(case['tag']), C.zlit(case['type']), C.zlit(case['dlen']), exp_bytes)
@@ -539,6 +672,8 @@ def to_coq(case, obs):
 
 
 def nontrivial(case, obs):
+  if case['kind'] == 'pipeline':
+    return len(obs.get('frames', [])) >= 2
   if 'exc' in obs:
     return False
   if case['kind'] == 'dispatch':
@@ -558,6 +693,8 @@ def stats(cases, obs):
   exc = {}
   nonascii = 0
   for c, o in zip(cases, obs):
+    if c['kind'] == 'pipeline':
+      continue
     if 'exc' in o:
       exc[o['exc']] = exc.get(o['exc'], 0) + 1
     if c['kind'] == 'dispatch' and any(ord(ch) > 127 for kk, vv in c['props'] + c['headers'] for ch in kk + vv.get('s', '')):
